@@ -58,11 +58,11 @@ def main():
                 elif hit[0].startswith('FIND'):
                     print('FIND', f.file, lp.line, k[:200])
                 else:
-                    e = {'key': k, 'variant': hit[0], 'where': '%s:%d' % (f.file, lp.line)}
+                    e = {'key': slices.canon_loop_key(f, lp.exits), 'loop': k, 'variant': hit[0], 'where': '%s:%d' % (f.file, lp.line)}
                     if hit[1]:
                         e['backing'] = hit[1]
                     if hit[1] not in DECIDED_BY_MODEL:
-                        dg, hs = slices.digest(slices.loop_items(f, prog.crate(cn), sorted(lp.body)))
+                        dg, hs = slices.digest(slices.canon_loop_items(f, prog.crate(cn), sorted(lp.body)))
                         e['slices'] = [dg]
                         e['slice_items'] = hs
                     out.append(e)
